@@ -580,7 +580,9 @@ PROPS["C11"] = {
     "assumptions": ["collector contract: survival iff reachable through pointer-typed words of typed allocations"],
 }
 
-PROPS["C02"]["harness"] = [("WR2", "C02"), ("E2E", "C02")]
+# the container clause of C02 (magic, metadata, exact counts and sizes, markers) is judged on the recorded writes of the
+# real Encoder / FileWriter by the C09 driver (specification-side header and block reader)
+PROPS["C02"]["harness"] = [("WR2", "C02"), ("E2E", "C02"), ("ENC9", "C09")]
 PROPS["C01"]["harness"] = [("E2E", "C01"), ("BIG", "C01")]
 PROPS["C03"]["harness"] = [("RD", "C03"), ("BIG", "C03")]
 PROPS["C07"]["harness"] = list(PROPS["C07"]["harness"]) + [("BIG", "C07")]
